@@ -1,5 +1,6 @@
 """C15 - tracked particles follow the flow of the distribution and never leave the grid."""
 import os
+import shutil
 
 import numpy as np
 
@@ -11,6 +12,7 @@ ASSUME = [
     "inside the grid: every coordinate finite and in [0, n-1] after every applyTo, for legal start positions (what PhaseSpace::x()/y() can return) incl. the exact edges",
     "ensemble: 20000 particles from the unit Gaussian under RF kick + drift + stochastic Fokker-Planck for five damping times; mean within 6/sqrt(N) sigma of the zero bins and width within 6/sqrt(2N) + e1 + a/2 of 1 at every snapshot (statistics, discretisation of the stochastic process, O(a) tilt of the kick-drift invariant ellipse)",
     "every other ensemble runs under the stochastic Fokker-Planck model alone on a 32-64 cell grid (zero-energy bin with any fractional part): same criteria, so an offset of the damping centre of half a cell (0.1-0.19 sigma) is far outside 6/sqrt(N) = 0.042 sigma",
+    "program, follow: linear RF, no wake, FPType 0, FPTrack 0, RF phase modulated by 1-2.5 degrees at 2-3.2 f_s, one particle started at (0,0): all steps are affine, so the particle (stored as the grid point below it, + half a cell) stays within 1.5 cells of /BunchPosition, /EnergyAverage in every record while the centroid swings by at least 8 cells",
     "program complement: tracking files with edge particles in the ASan/UBSan build with --outstep 1: no sanitizer report, all stored coordinates finite and inside the axes",
 ]
 
@@ -66,6 +68,58 @@ def prog_part(ctx):
             ctx.violation(res["viol"][0], res["viol"][1], dict(options=res["opts"], cmd=res["cmd"], report=res["viol"][2]))
 
 
+def prog_follow(ctx):
+    """tracking together with a modulated RF phase, through the program: with linear RF, no wake and no Fokker-Planck term every
+    step is an affine map, so a particle started on the centroid of the (centred) bunch must stay on the recorded centroid"""
+    sdir = ctx.scratch()
+    n = 24 if ctx.tier == "thorough" else 4
+
+    def one(i):
+        r = core.Rng("c15follow", ctx.seed, i)
+        d = os.path.join(sdir, "f%03d" % i)
+        os.makedirs(d, exist_ok=True)
+        g = r.choice([128, 160, 192, 256])
+        o = dict(GridSize=g, StepsPerTs=r.choice([40, 60, 80]), rotations=r.choice([2.0, 3.0]), outstep=1, VacuumGap=0, FPType=0, FPTrack=0, LinearRF=True,
+                 tracking="trk.txt", output="o.h5", SavePhaseSpace=0)
+        P = physics.derive(o)
+        o["RFPhaseModAmplitude"] = round(r.uniform(1.0, 2.5), 3)
+        o["RFPhaseModFrequency"] = round(P["fs"] * r.uniform(2.0, 3.2), 1)
+        with open(os.path.join(d, "trk.txt"), "w") as fh:
+            fh.write("0 0\n")
+        res = prog.run_inovesa("rel", o, d, os.path.join(d, "xdg"), timeout=900)
+        out = dict(i=i, opts=o, cmd=" ".join(res["argv"]))
+        if prog.program_outcome_key(res) or res["rc"] != 0 or not os.path.exists(os.path.join(d, "o.h5")):
+            out["incon"] = "run failed: " + res["err"][-200:]
+            return out
+        h = prog.H5(os.path.join(d, "o.h5"))
+        pr = h["/Particles/data"].astype(float)[:, 0, :]
+        z, e = h["/Info/AxisValues_z"].astype(float), h["/Info/AxisValues_E"].astype(float)
+        dz, de = z[1] - z[0], e[1] - e[0]
+        cq, cp = h["/BunchPosition/data"].astype(float)[:, 0], h["/EnergyAverage/data"].astype(float)[:, 0]
+        m = min(len(pr), len(cq), len(cp))
+        # the stored particle coordinate is the grid point below its position: add half a cell
+        dev = np.maximum(np.abs(pr[:m, 0] + 0.5 * dz - cq[:m]) / dz, np.abs(pr[:m, 1] + 0.5 * de - cp[:m]) / de)
+        swing = float(max(np.max(np.abs(cq[:m] - cq[0])) / dz, np.max(np.abs(cp[:m] - cp[0])) / de))
+        out.update(records=int(m), swing=swing, worst=float(np.max(dev)), at=int(np.argmax(dev)))
+        shutil.rmtree(d, ignore_errors=True)
+        return out
+
+    for res in core.pmap(one, list(range(n))):
+        if "incon" in res:
+            ctx.inconcl("tracking/modulation case %d: %s" % (res["i"], res["incon"]))
+            continue
+        if res["swing"] < 8:
+            ctx.inconcl("tracking/modulation case %d: centroid swings by %.1f cells only" % (res["i"], res["swing"]))
+            continue
+        ctx.case("follow_prog:%s" % sorted((k, str(v)) for k, v in res["opts"].items()))
+        ctx.ev("program_runs_particle_on_modulated_centroid")
+        ctx.ev("program_records_particle_vs_centroid", res["records"])
+        ctx.residual("prog.particle_minus_centroid_cells", res["worst"], 1.5)
+        if res["worst"] > 1.5:
+            ctx.violation("C15:prog:follow:dynamic_rf", "tracked particle started on the bunch centroid leaves the recorded centroid while the RF phase is modulated (all steps affine)",
+                          dict(options=res["opts"], cmd=res["cmd"], centroid_swing_cells=res["swing"], worst_deviation_cells=res["worst"], at_record=res["at"]))
+
+
 def run(ctx):
     ctx.assumptions = ASSUME
     ctx.rule = ("follow: (map kind of 6, grid 32..256, order 2-4, shift, smooth displacement field) x 12 particles; followdyn: (dynamic RF map linear/sinus x phase modulation / noise / both, grid 48..192, order 2-4) x 12 consecutive steps, one blob + particle per step; ingrid: (all kick kinds with displacements up to 0.44 n, FP map x 4 tracking models x FP type x stencil x decrement) x 160 particles incl. 100 edge combinations x 12..400 steps; "
@@ -79,7 +133,8 @@ def run(ctx):
     core.run_harness(ctx, "c15", 400 if th else 48, variant="asan", args=["--mode", "follow"])
     core.run_harness(ctx, "c15", 96 if th else 8, args=["--mode", "ensemble"], chunk=1)
     prog_part(ctx)
+    prog_follow(ctx)
     ctx.min_events = {"particles_followed": 3000, "particle_moves_checked": 200000, "ensemble_snapshots": 100,
                       "fp_track_model.0": 10, "fp_track_model.1": 10, "fp_track_model.2": 10, "fp_track_model.3": 10,
                       "tracking_runs_under_sanitizer": 4,
-                      "particles_followed_dynamic_rf": 2000, "followdyn_cases_with_kick_changing_between_steps": 150, "ensembles_under_fp_alone": 3}
+                      "particles_followed_dynamic_rf": 2000, "followdyn_cases_with_kick_changing_between_steps": 150, "ensembles_under_fp_alone": 3, "program_runs_particle_on_modulated_centroid": 2}
